@@ -299,6 +299,21 @@ def replay_default(obj):
     return 1 if st == "fail" else 0
 
 
+def bare_spellings(f, style="ann"):
+    """Spellings without a constructor call of the field AST f (only fields without constraints have any): the bare
+    Field class and, in an annotation, the plain python type."""
+    t = f["t"]
+    ann = style == "ann"
+    if t == "num" and f.get("mult") is None and f.get("min") is None and f.get("max") is None and not f.get("xmax"):
+        cls = G.SIGN_CLASS[(f["k"], f["s"])]
+        return [cls] + ({"Integer": ["int"], "Float": ["float"]}.get(cls, []) if ann else [])
+    if t == "str" and f.get("min") is None and f.get("max") is None and f.get("pat") is None:
+        return ["String"] + (["str"] if ann else [])
+    if t == "bool":
+        return ["Boolean"] + (["bool"] if ann else [])
+    return []
+
+
 # ------------------------------------------------------------------ 2. hierarchy-shape lattice
 
 # shape -> [(class, [bases])] in definition order; classes named R* are roots and declare the field
@@ -426,6 +441,11 @@ def _outcome(cls, kw, n):
         return ("raise-get", E.exn_name(ex))
 
 
+def _describe(o):
+    d = getattr(o, "_default", None)
+    return "%s(default=%r)" % (type(o).__name__, d() if callable(d) else d)
+
+
 def mro_clauses(prog, ns, report, base_values=None):
     """On the implementation: for every realised class statement and every field of its field map,
     (a) the field map holds the very object attribute lookup finds along the MRO;
@@ -451,8 +471,8 @@ def mro_clauses(prog, ns, report, base_values=None):
             n_eval += 1
             if attr is not fobj and (isinstance(attr, Field) or isinstance(fobj, Field)):
                 report("C14/inherited/field-map-differs-from-mro-lookup",
-                       "%s.get_all_fields_by_name()[%r] is not the attribute found along the MRO (in %s): %r vs %r" % (
-                           cls.__name__, n, getattr(holder, "__name__", None), fobj, attr),
+                       "%s.get_all_fields_by_name()[%r] is not the attribute found along the MRO (in %s): %s vs %s" % (
+                           cls.__name__, n, getattr(holder, "__name__", None), _describe(fobj), _describe(attr)),
                        {"class": cls.__name__, "field": n})
             if n in own or holder is None or holder is cls or not isinstance(attr, Field):
                 continue
